@@ -185,7 +185,7 @@ def dokSliceBoundsFixed (istart istop istep : Option Int) (dim : Int) : Int × I
     if start < stop then (stop, stop, step) else (start, stop, step)
 
 /-- re-clipping a clipped slice changes nothing: the repaired bounds return the normalised slice itself -/
-theorem fixed_bounds_clip (s e st d : Int) (hst : st ≠ 0) :
+theorem fixed_bounds_clip (s e st d : Int) (_hst : st ≠ 0) :
     dokSliceBoundsFixed (some (Gen.clipSlice s e st d).1) (some (Gen.clipSlice s e st d).2.1)
       (some (Gen.clipSlice s e st d).2.2) d = Gen.clipSlice s e st d := by
   simp only [dokSliceBoundsFixed, Gen.clipSlice]
